@@ -332,6 +332,30 @@ def partitions(tier, seed):
                       bound='content header: any body size, delivery-mode 0..255 (not validated), unused flag bit, '
                             'single and continued flag words', rep={'ch': 1, 'size': {'__bytes__': 'ff' * 8}, 'dm': 3,
                                                                      'prio': 0, 'unused': True, 'ct': 'x'}))
+    parts.append(Part('decode_again_after_mutation', [('ch', 'int'), ('a', 'int'), ('b', 'int')],
+                      ['0 <= ch <= 65535', '0 <= a <= 255', '0 <= b <= 255'],
+                      'def body(ch, a, b):\n'
+                      '    # the value a decode yields is what is on the wire, whatever an earlier caller did to an\n'
+                      '    # earlier result: {k: [a, {j: b}], x: bytearray([a])}\n'
+                      '    inner = [1, 106, ord("B"), b]\n'
+                      '    arr = [ord("B"), a, ord("F")] + be(len(inner), 4) + inner\n'
+                      '    tbl = [1, 107, ord("A")] + be(len(arr), 4) + arr + [1, 120, ord("x"), 0, 0, 0, 1, a]\n'
+                      '    wire_t = be(len(tbl), 4) + tbl\n'
+                      '    d1 = envelope(1, ch, be(0x0032000A, 4) + [0, 0, 0, 0] + wire_t)\n'
+                      '    d2 = envelope(2, ch, [0, 60, 0, 0] + [0] * 8 + [0x20, 0x00] + wire_t)\n'
+                      '    ok = True\n'
+                      '    for d, get in ((d1, lambda f: f.arguments), (d2, lambda f: f.properties.headers)):\n'
+                      '        for rnd in (0, 1, 2):\n'
+                      '            t = get(frame.unmarshal(d)[2])\n'
+                      '            ok = ok and len(t) == 2 and len(t["k"]) == 2 and t["k"][0] == a and t["k"][1]["j"] == b\n'
+                      '            ok = ok and len(t["x"]) == 1 and t["x"][0] == a\n'
+                      '            t["k"].append("seen")\n'
+                      '            t["k"][1]["j"] = "seen"\n'
+                      '            t["x"].append(0)\n'
+                      '    return ok\n',
+                      PRE, 200, family='wire_history',
+                      bound='a nested table decoded three times from a method frame and from a content header, each '
+                            'result mutated in place before the next decode', rep={'ch': 1, 'a': 200, 'b': 3}))
     for m in spec.METHODS:
         nstr = sum(1 for _, t, _ in m['args'] if t in ('shortstr', 'longstr'))
         has_table = any(t == 'table' for _, t, _ in m['args'])
